@@ -6,7 +6,6 @@ import (
 	"go/token"
 	"go/types"
 	"math"
-	"os"
 	"reflect"
 	"sort"
 	"strings"
@@ -889,9 +888,6 @@ func (di *dynInterp) call(f *ssa.Function, c *ssa.Call, get func(ssa.Value) aval
 					return cBool(tbl[int(k)])
 				}
 			}
-		}
-		if os.Getenv("VCHK_DEBUG_CALLEE") == g.Name() {
-			fmt.Fprintf(os.Stderr, "DEBUG call %s from %s at %s args=%v arith=%v depth=%d\n", g.Name(), f.Name(), di.p.Pos(c.Pos()), args, di.arith, depth)
 		}
 		return di.run(g, args, depth+1)
 	}
